@@ -463,7 +463,7 @@ def _visits_body_twice(fi):
     return c >= 2
 
 
-def rule_invalidation_tables(check, rule):
+def rule_invalidation_tables(check, rule, precision_rule=None):
     """C05.R5: visit_Name, taint, deferred calls, nonlocal"""
     repo = check.repo
     # visit_Name: invalidation skipped only under immutable and Load
@@ -614,6 +614,37 @@ def rule_invalidation_tables(check, rule):
                                 witness='def f(self, *a, **k): (lambda: self.notify())(); return g(*a, **k) -> sigtools.signature(f) raises KeyError')
             else:
                 check.inconclusive(rule, site_of(fi, hcall), 'taint helper Namespace.%s not understood' % helper.name, key='process_Call|taint')
+    # resolve_name: the base of an attribute chain is only *read* (`base.attr` does not hand `base` to other code), so the
+    # recursive resolution of the base must be read-only whatever the outer call asked for
+    rnode = rn.node
+    rself = rn.params()[0][0]
+    rec = [c for c in ast.walk(rnode) if isinstance(c, ast.Call) and isinstance(c.func, ast.Attribute) and c.func.attr == 'resolve_name'
+           and isinstance(c.func.value, ast.Name) and c.func.value.id == rself and c.args and isinstance(c.args[0], ast.Attribute)
+           and c.args[0].attr == 'value']
+    key = 'resolve_name|attribute-base-readonly'
+    # (over-invalidation only costs precision -- discovery falls back -- so this obligation belongs to the agreement
+    # property C06, not to the soundness property C05)
+    if precision_rule is None:
+        rec = []
+    elif not rec:
+        check.inconclusive(precision_rule, site_of(rn, rnode), 'resolve_name: recursive resolution of an attribute\'s base not found', key=key)
+    for c in rec:
+        b_ = {}
+        rpos = rn.params()[0]
+        for i_, a_ in enumerate(c.args):
+            if i_ + 1 < len(rpos):
+                b_[rpos[i_ + 1]] = a_
+        for kw_ in c.keywords:
+            if kw_.arg:
+                b_[kw_.arg] = kw_.value
+        ro_ = b_.get('ro')
+        if isinstance(ro_, ast.Constant) and ro_.value is True:
+            check.holds(precision_rule, site_of(rn, c), 'the base of an attribute chain is resolved read-only (ro=True)', key=key)
+        else:
+            check.violation(precision_rule, site_of(rn, c), 'the base of an attribute chain is resolved with ro=%s: passing `base.attr` as an argument value '
+                            'then invalidates `base` itself, and a later forwarding call on `base.other(...)` can no longer be resolved'
+                            % (norm(ro_) if ro_ is not None else 'default False'), key=key,
+                            witness='log(self.name); return self.impl(*args, **kwargs) falls back to the plain signature')
     # argument values: resolve_name(arg) must visit the expression (ro must not be set) so that handing
     # *args/**kwargs to other code invalidates it
     for node in ast.walk(fi.node):
